@@ -194,7 +194,12 @@ func c16Read(text string, r *vf.Rec) (kind string, msg string, multi bool) {
 			m = e2.Error()
 		}
 	}
-	multi = repl.VerifMultiLine(err)
+	multi, available := repl.VerifMultiLine(err)
+	if !available {
+		// the REPL no longer has a classifier of that name: its behaviour is then judged by the
+		// repl-sessions family only; here the verdict is derived from the distinguished message
+		multi = strings.HasPrefix(m, "expected '") && strings.HasSuffix(m, c16EOF)
+	}
 	if strings.HasPrefix(m, "expected '") && strings.HasSuffix(m, c16EOF) {
 		return "incomplete", m, multi
 	}
